@@ -2,6 +2,7 @@ SPECIFICATION TSpec
 CONSTANTS
   BaseWorld <- TraceBase
   VarChoices <- TraceVarChoices
+  PointLists <- TracePointLists
   MaskSizes = {1}
   MaxObjs = 100
   MaxMasks = 100
